@@ -131,6 +131,8 @@ def run(ctx: Ctx):
             mdcpdp_mask_classes(ctx, env, "tighter")
     wait_not_pruned_by_default(ctx)
     mtsp_depot_column(ctx)
+    from .C01 import mtsp_agent_counter
+    mtsp_agent_counter(ctx, EnvA(ctx.repo, T.ENVS["MTSPEnv"][0], "MTSPEnv"), "C05.j")
     old = T.BOOL_CELLS
     try:
         T.BOOL_CELLS = TS.BOOL_CELLS
